@@ -9,6 +9,7 @@ Emits <outdir>/Gen_special.v with
                                   merge_weighted(i,w1,i,w2)) after the x1,x2,v1,v2 reads)
   g_simple_variance               function._simple_variance: the three tolerances -> RuntimeError
   g_implicit_dx_dy                function.implicit_real: dx_dy (and the shape of the returned object)
+  g_nr_get_root_shape             function.nr_get_root: witness that the statement sequence is the one coq/Special.v models by hand
   g_merge_tol / g_merge_differs   type_a.merge: default TOL, the guard (and the shape a + (b - value(b)))
   g_mod_value / g_fmod_value      UncertainReal.__mod__ / _fmod value expressions (and their shapes)
 Anything outside the recognised shape makes that definition ABSENT (comment says why), so the
@@ -129,6 +130,52 @@ def tr_implicit(fn):
     p, t = fc.expr(s.value)
     return 'Definition g_implicit_dx_dy (N : Num) (dy_dx : T N) : res (T N) :=\n  %s.\n' % fc.close(p, 'Ok ' + t)
 
+# ------------------------------------------------------------------ function.nr_get_root (hand-modelled: shape pin)
+class _NoStr(ast.NodeTransformer):
+    """error-message texts are irrelevant to the model"""
+    def visit_Constant(self, n):
+        return ast.copy_location(ast.Constant(value='S'), n) if isinstance(n.value, str) else n
+
+NR_GET_ROOT_SHAPE = ["ifx_max<=x_min:\\nraiseRuntimeError('S'.format((x_min,x_max)))",
+ 'lower,upper=(x_min,x_max)',
+ 'ureal=lambdax,u:UncertainReal._elementary(x,u,inf,None,True)',
+ 'value=lambdax:x.xifisinstance(x,UncertainReal)elsefloat(x)',
+ 'x=ureal(lower,1.0)',
+ 'f_x=fn(x)',
+ 'fl=value(f_x)',
+ "assertisinstance(f_x,UncertainReal),'S'%type(f_x)",
+ 'ifabs(fl)<epsilon:\\nreturn(lower,f_x.sensitivity(x))',
+ 'x=ureal(upper,1.0)',
+ 'f_x=fn(x)',
+ 'fu=value(f_x)',
+ 'ifabs(fu)<epsilon:\\nreturn(upper,f_x.sensitivity(x))',
+ "iffl*fu>=0.0:\\nraiseRuntimeError('S'.format((fl,fu)))",
+ 'iffl>0.0:\\nlower,upper=(upper,lower)',
+ 'xk=(lower+upper)/2.0',
+ 'dx2=abs(upper-lower)',
+ 'dx=dx2',
+ 'x=ureal(xk,1.0)',
+ 'f_x=fn(x)',
+ 'f=value(f_x)',
+ 'df=f_x.sensitivity(x)',
+ 'foriinxrange(100):\\nif((xk-upper)*df-f)*((xk-lower)*df-f)>0.0orabs(2.0*f)>abs(dx2*df):\\ndx2=dx\\ndx=(upper-lower)/2.0\\nifabs(dx)<=epsilon:\\nreturn(xk,df)\\nelse:\\nxk=lower+dx\\nelse:\\ndx2=dx\\ndx=f/df\\nifabs(dx)<=epsilon:\\nreturn(xk,df)\\nelse:\\nxk-=dx\\nifabs(dx)<=epsilon:\\nreturn(xk,df)\\nx=ureal(xk,1.0)\\nf_x=fn(x)\\nf=value(f_x)\\ndf=f_x.sensitivity(x)\\niff<0.0:\\nlower=xk\\nelse:\\nupper=xk',
+ "raiseRuntimeError('S')"]
+
+def tr_nr_get_root(fn):
+    """coq/Special.v models nr_get_root by hand (probe at x_min, early exit returning `lower` and the sensitivity of THAT
+    evaluation, probe at x_max, early exit returning `upper` and the sensitivity of THAT evaluation, sign test, swap, the
+    100-iteration Newton/bisection loop).  The source must have exactly the statement sequence the model was written against
+    (modulo layout, comments and message texts); otherwise the witness definition is absent and Special.v stops compiling."""
+    f = find_func(fn, 'nr_get_root')
+    if [a.arg for a in f.args.args] != ['fn', 'x_min', 'x_max', 'epsilon']:
+        raise Untranslatable('nr_get_root arguments')
+    got = [ast.unparse(_NoStr().visit(s)).replace(' ', '').replace('\n', '\\n') for s in strip_doc(f.body)]
+    if got != NR_GET_ROOT_SHAPE:
+        for i, (g, w) in enumerate(zip(got + [None] * len(NR_GET_ROOT_SHAPE), NR_GET_ROOT_SHAPE + [None] * len(got))):
+            if g != w:
+                raise Untranslatable('nr_get_root statement %d is %r, the model was written against %r' % (i, g, w))
+    return 'Definition g_nr_get_root_shape : unit := tt.\n'
+
 # ------------------------------------------------------------------ type_a.merge
 def tr_merge(ta):
     f = find_func(ta, 'merge')
@@ -180,7 +227,7 @@ def main(repo, outdir):
              'From Coq Require Import ZArith Bool.\nFrom GTCV Require Import Num.\n']
     rc = 0
     for name, th in [('mult_2nd_real_pair', lambda: tr_mul2(lib)), ('_simple_variance', lambda: tr_simple_variance(fn)),
-                     ('implicit_real', lambda: tr_implicit(fn)), ('merge', lambda: tr_merge(ta)),
+                     ('implicit_real', lambda: tr_implicit(fn)), ('nr_get_root', lambda: tr_nr_get_root(fn)), ('merge', lambda: tr_merge(ta)),
                      ('__mod__/_fmod', lambda: tr_mod(lib))]:
         try:
             parts.append(th())
